@@ -311,9 +311,12 @@ def run(ctx):
                                      field_values={("model_thread", "ch"): PTR("CHARR", (0,))})
                 store = {("EMU", F("emu", "thread")): PTR("TH"), ("EMU", F("emu", "proc")): PTR("PROC"),
                          ("PROC", F("proc", "rank")): INT(rank), ("PROC", F("proc", "appid")): INT(504)}
-                for t in ("TASK", "TASK2"):
-                    store[(t, F("task", "id"))] = INT(501)
-                    store[(t, F("task", "type"))] = PTR("TYPE")
+                # TASK is the task that was running (prev), TASK2 the one that runs now: different id and type
+                store[("TASK", F("task", "id"))] = INT(401)
+                store[("TASK", F("task", "type"))] = PTR("TYPE0")
+                store[("TYPE0", F("task_type", "gid"))] = INT(402)
+                store[("TASK2", F("task", "id"))] = INT(501)
+                store[("TASK2", F("task", "type"))] = PTR("TYPE")
                 store[("TYPE", F("task_type", "gid"))] = INT(502)
                 params = [p["ctype"] for p in fn.params]
                 args = [PTR("EMU")]
